@@ -751,7 +751,8 @@ class Interp:
                     return set(base).issubset(args[0])
             if isinstance(base, str) and fn.attr in ("lower", "upper", "strip", "lstrip", "rstrip", "replace", "startswith",
                                                      "endswith", "split", "format", "join", "title", "capitalize", "casefold", "swapcase", "zfill", "rsplit",
-                                                     "partition", "rpartition", "isdigit", "isalpha", "isupper", "islower", "find", "count", "ljust", "rjust", "splitlines"):
+                                                     "partition", "rpartition", "isdigit", "isalpha", "isupper", "islower", "find", "count", "ljust", "rjust", "splitlines",
+                                                     "isidentifier", "isalnum", "isnumeric", "isdecimal", "isspace", "isascii", "rfind", "index", "removeprefix", "removesuffix", "encode", "center"):
                 return getattr(base, fn.attr)(*args, **kwargs)
             if isinstance(base, list) and fn.attr in ("append", "extend", "insert", "pop", "index", "count", "copy", "sort", "reverse", "remove", "clear"):
                 return getattr(base, fn.attr)(*args, **kwargs)
